@@ -11,15 +11,6 @@ def wavgI (f : Rat → I) (xs ws : List Rat) (x : Rat) : I :=
   let W := sum ws
   I.scale (1 / W) ((xs.zip ws).foldl (fun s (xi, w) => I.add s (I.scale w (f (x - xi)))) (I.ofRat 0))
 
-/-- the same average with exact rational end points: `I.add`/`I.mul` round to the grid 2^-128, which is fine for
-absolute tolerances but wipes out values far below it; the relative clauses (deep tails of the unbounded
-Gaussian estimate, down to subnormal densities) need the relative precision `I.phi`/`I.Phi` deliver.
-(weights are non-negative, so the lower/upper ends combine monotonically) -/
-def wavgExact (f : Rat → I) (xs ws : List Rat) (x : Rat) : I :=
-  let W := sum ws
-  let r := (xs.zip ws).foldl (fun (s : Rat × Rat) (xi, w) => let e := f (x - xi); (s.1 + w * e.lo, s.2 + w * e.hi)) (0, 0)
-  ⟨r.1 / W, r.2 / W⟩
-
 inductive Kern | epan | gauss | delta deriving BEq
 
 def kernPDF (k : Kern) (h u : Rat) : I :=
@@ -118,7 +109,7 @@ def handleKDE (ins outs : List J) : Verdict :=
         | .fin v => let t := 8 * pow2 (-1074) * (1 + 1 / h) + (1 / 1000000000) * ratMax (ratAbs e.lo) (ratAbs e.hi); decide (e.lo - t ≤ v ∧ v ≤ e.hi + t)
         | _ => false
       let relPDF := (match b with | .none => true | _ => false) && k == .gauss && ws.all (· ≥ 0)
-      let pdfX (x : Rat) : I := wavgExact (fun u => let e := I.phi (u / h); ⟨e.lo / h, e.hi / h⟩) xs ws x
+      let pdfX (x : Rat) : I := wavgExact (gaussPDFX h) xs ws x
       let cdfX (x : Rat) : I := wavgExact (fun u => I.Phi (u / h)) xs ws x
       let pdfOk := k == .delta || (qs.zip gp).all fun (x, g) => if relPDF then inTolRelP g (pdfX x) else inTol g (pdfM x)
       -- without boundaries the CDF is an average of kernel CDFs (non-negative terms): in the lower half it is
